@@ -387,18 +387,7 @@ func checkC04(cx *Ctx, r *Report) {
 
 	// the octets signed cannot be overwritten before they are sent
 	cx.checkPoolEscape(r)
-	// the key pair used for signing is checked to belong together (tls.X509KeyPair verifies that the private
-	// key matches the certificate; a mismatched pair from storage must be an error, not a signature nobody can verify)
-	if pk := w.Func("signature.ParseTlsKeyPair"); pk != nil {
-		pvf := cx.newVFlow("ParseTlsKeyPair", pk)
-		ls := LabelSet{}
-		for _, ret := range returnsOf(pk) {
-			ls.addAll(pvf.Labels(ret.Results[0]), 0)
-		}
-		r.checkSources("R-VFG", "ParseTlsKeyPair:checked-pair", w.FnPos(pk), ls, []string{"ext:tls.X509KeyPair#0"}, []string{"ext:tls.X509KeyPair#0"}, true)
-	} else {
-		r.Fail("R-VFG", "ParseTlsKeyPair:checked-pair", "", "anchor not found")
-	}
+	cx.checkKeyPairChecked(r)
 
 	// the signer used for enveloped signatures is built for this request from the key just read (not cached)
 	for _, e := range []struct{ key, short string }{{kCallback, "callback"}, {kAttr, "attr"}, {kMeta, "metadata"}} {
@@ -605,4 +594,21 @@ func (cx *Ctx) checkBuildRedirectQuery(r *Report) {
 		}
 	}
 	r.Check(n == len(bq.Params) && bad == "", "R-VFG", "BuildRedirectQuery:escape-once", w.FnPos(bq), "each of the four values is URL-encoded exactly once with url.QueryEscape", fmt.Sprintf("%d QueryEscape calls for %d values; %s", n, len(bq.Params), bad))
+}
+
+// checkKeyPairChecked: the key pair used for signing is checked to belong together (tls.X509KeyPair verifies that
+// the private key matches the certificate; a mismatched pair from storage must be an error, not a signature nobody
+// can verify with the certificate the metadata publishes).
+func (cx *Ctx) checkKeyPairChecked(r *Report) {
+	w := cx.W
+	if pk := w.Func("signature.ParseTlsKeyPair"); pk != nil {
+		pvf := cx.newVFlow("ParseTlsKeyPair", pk)
+		ls := LabelSet{}
+		for _, ret := range returnsOf(pk) {
+			ls.addAll(pvf.Labels(ret.Results[0]), 0)
+		}
+		r.checkSources("R-VFG", "ParseTlsKeyPair:checked-pair", w.FnPos(pk), ls, []string{"ext:tls.X509KeyPair#0"}, []string{"ext:tls.X509KeyPair#0"}, true)
+	} else {
+		r.Fail("R-VFG", "ParseTlsKeyPair:checked-pair", "", "anchor not found")
+	}
 }
